@@ -150,6 +150,8 @@ func cmdCheck(args []string) {
 	tSolve := time.Since(t0).Seconds() - tLoad - tBuild
 
 	var evs []evObl
+	canaryOK := map[string]bool{}
+	var canaryOrder []*Finding
 	nObl, nDis := 0, 0
 	nCover, nCoverOK := 0, 0
 	var solverMs int64
@@ -181,10 +183,13 @@ func cmdCheck(args []string) {
 		evs = append(evs, evObl{r.O.Name, r.O.Kind, r.O.Clause, r.R.Status, r.R.Solver, r.R.Ms, r.R.VCBytes, r.O.Pos, r.R.Answers})
 		switch {
 		case r.O.Kind == "canary":
+			id := r.O.Finding.ID
+			if _, seen := canaryOK[id]; !seen {
+				canaryOrder = append(canaryOrder, r.O.Finding)
+				canaryOK[id] = false
+			}
 			if r.OK {
-				known = append(known, fmt.Sprintf("KNOWN-FINDING: property=%s %s %s [%s]", *prop, r.O.Finding.ID, r.O.Finding.What, r.O.Finding.Input))
-			} else {
-				lines = append(lines, fmt.Sprintf("NOTE: known finding %s no longer reproduces on obligation %s (status %s): entry is stale", r.O.Finding.ID, r.O.Name, r.R.Status))
+				canaryOK[id] = true
 			}
 		case r.O.Cover:
 			nCover++
@@ -234,6 +239,13 @@ func cmdCheck(args []string) {
 			} else {
 				lines = append(lines, fmt.Sprintf("VIOLATION property=%s replay=%s no-failing-input-found", *prop, rp))
 			}
+		}
+	}
+	for _, f := range canaryOrder {
+		if canaryOK[f.ID] {
+			known = append(known, fmt.Sprintf("KNOWN-FINDING: property=%s %s %s [%s]", *prop, f.ID, f.What, f.Input))
+		} else {
+			lines = append(lines, fmt.Sprintf("NOTE: known finding %s no longer reproduces (no obligation fails inside its region): entry is stale", f.ID))
 		}
 	}
 	for _, k := range known {
